@@ -160,6 +160,14 @@ func bruteNext(e *expr, prev int64, lim int) (int64, bool) {
 	return 0, false
 }
 
+func floorDiv(a, b int64) int64 {
+	q := a / b
+	if a%b < 0 {
+		q--
+	}
+	return q
+}
+
 var monthNames = []string{"", "JAN", "FEB", "MAR", "APR", "MAY", "JUN", "JUL", "AUG", "SEP", "OCT", "NOV", "DEC"}
 var dayNames = []string{"", "SUN", "MON", "TUE", "WED", "THU", "FRI", "SAT"}
 
@@ -473,6 +481,18 @@ func boundaryPrev(r *rand.Rand, off int) (int64, string) {
 		sec = 9223372035
 	}
 	ns := sec*1000000000 + int64(r.Intn(3))*int64(r.Intn(1000000000))
+	if r.Intn(16) == 0 {
+		// instants before 1970 (negative prev), whole seconds and fractions of a second
+		switch r.Intn(3) {
+		case 0:
+			ns = -int64(r.Intn(3000000000)) // the last three seconds of 1969
+		case 1:
+			ns = -r.Int63n(946684800000000000) // 1940..1969 (the reference search walks at most 4000 months)
+		default:
+			ns = -(r.Int63n(946684800) * 1000000000) // whole seconds
+		}
+		class = "before-1970"
+	}
 	return ns, class
 }
 
@@ -552,7 +572,7 @@ func runFixed(seed int64, from, to int, brute bool) {
 			}
 			if brute && !mutated {
 				// independent day-by-day search on the wall clock of the location
-				w, ok := bruteNext(e, prev/1000000000+int64(off), 2262)
+				w, ok := bruteNext(e, floorDiv(prev, 1000000000)+int64(off), 2262)
 				oracle = "E"
 				if ok {
 					if t := w - int64(off); t <= 9223372036 {
@@ -742,6 +762,7 @@ func runZone(seed int64, from, to int, names []string) {
 		}
 		ftoks := fieldTokens(quartz.VerifTriggerFields(tr))
 		var prev int64
+		var twinDelta int64
 		class := "far"
 		// transitions inside 1970..2200
 		var cand []int
@@ -768,6 +789,9 @@ func runZone(seed int64, from, to int, names []string) {
 				before = z.offs[k-1]
 			}
 			delta := int64(z.offs[k] - before)
+			if delta < 0 {
+				twinDelta = -delta
+			}
 			switch r.Intn(6) {
 			case 0:
 				prev = tr0 - 86400 + r.Int63n(2*86400)
@@ -805,6 +829,17 @@ func runZone(seed int64, from, to int, names []string) {
 			prev = 0
 		}
 		pns := prev*1000000000 + int64(r.Intn(2))*int64(r.Intn(1000000000))
+		// twin call on the SAME trigger object: the other instant of a repeated hour that shows the same
+		// wall clock reading (one fall-back size later / earlier), asked right after the first one, so that
+		// any state a trigger keeps between calls (a memo keyed by the reading) is exercised
+		twin := int64(-1)
+		if twinDelta != 0 && (class == "first-pass" || class == "second-pass") {
+			if class == "first-pass" {
+				twin = pns + twinDelta*1000000000
+			} else if pns-twinDelta*1000000000 >= 0 {
+				twin = pns - twinDelta*1000000000
+			}
+		}
 		for c := 0; c < 4; c++ {
 			id := fmt.Sprintf("%d.%d", i, c)
 			res := fire(tr, pns, fmt.Sprintf("%s\t%s\t%d", ex, z.name, pns))
@@ -814,6 +849,14 @@ func runZone(seed int64, from, to int, names []string) {
 				oracle = "ok-expired-within-horizon"
 			}
 			emitCase(id, z.name, pns, res, ftoks, ex, z.name, class, oracle)
+			if c == 0 && twin >= 0 {
+				tres := fire(tr, twin, fmt.Sprintf("%s\t%s\t%d", ex, z.name, twin))
+				toracle := zoneOracle(e, z, twin/1000000000, tres, horizon)
+				if tres == "E" && toracle == "ok" {
+					toracle = "ok-expired-within-horizon"
+				}
+				emitCase(fmt.Sprintf("%d.t", i), z.name, twin, tres, ftoks, ex, z.name, fmt.Sprintf("twin-of-%s@%d", class, pns), toracle)
+			}
 			if !strings.HasPrefix(res, "F") {
 				break
 			}
@@ -976,7 +1019,7 @@ func exprFromFields(f quartz.VerifFields) *expr {
 }
 
 // runOne replays a single recorded case (and a chain of three from it).
-func runOne(ex, locName string, prev int64) {
+func runOne(ex, locName string, prev int64, before int64, hasBefore bool) {
 	loc := time.UTC
 	zid := "utc"
 	var off int
@@ -1004,6 +1047,10 @@ func runOne(ex, locName string, prev int64) {
 		return
 	}
 	ftoks := fieldTokens(quartz.VerifTriggerFields(tr))
+	if hasBefore {
+		// the recorded case was the second call on one trigger object: repeat the first one
+		fire(tr, before, fmt.Sprintf("%s\t%s\t%d", ex, locName, before))
+	}
 	for c := 0; c < 3; c++ {
 		res := fire(tr, prev, fmt.Sprintf("%s\t%s\t%d", ex, locName, prev))
 		oracle := "-"
@@ -1034,6 +1081,8 @@ func main() {
 	oneExpr := fs.String("expr", "", "")
 	oneLoc := fs.String("loc", "UTC", "")
 	onePrev := fs.Int64("prev", 0, "")
+	oneBefore := fs.Int64("before", 0, "prev of a call made on the same trigger before the replayed one")
+	oneHasBefore := fs.Bool("has-before", false, "")
 	_ = fs.Parse(os.Args[2:])
 	go watchdog()
 	defer out.Flush()
@@ -1049,7 +1098,7 @@ func main() {
 	case "pure":
 		runPure(*seed, *n)
 	case "one":
-		runOne(*oneExpr, *oneLoc, *onePrev)
+		runOne(*oneExpr, *oneLoc, *onePrev, *oneBefore, *oneHasBefore)
 	default:
 		os.Exit(2)
 	}
